@@ -794,7 +794,7 @@ pub fn c06_checks() -> Vec<Box<dyn DynCheck>> {
 
 pub const C13_RULE: &str = "positions biased to two..four like pieces (knights, bishops, rooks, queens incl. promoted ones) that can reach one square from different files and ranks (ambiguity theme: origins drawn from the squares attacking a chosen target), pinned look-alikes (pin theme), promotions, en passant, castling with check, plus placements and reachable walks; enumerate_candidate_moves_with_algebraic_notation (and Game::enumerated_candidate_moves on a slice) must give every legal move exactly the reference SAN (piece letter, minimal file -> rank -> square disambiguation among LEGAL like-piece moves to the square, 'x', pawn-capture file, '=Q/R/B/N', O-O/O-O-O, '+'/'#') and labels must be pairwise distinct. Sessions: one Game object is driven through a generated shuffling game and its listing is compared with the reference at every turn (placements recur with either side to move). Non-trivial = at least two legal moves of like pieces share a destination (labels: same-file, same-rank, neither-shared, both-needed), or promotion/en-passant/castle-with-check present; distinct = position fingerprint.";
 
-fn notation_position() -> BoxedStrategy<String> {
+pub fn notation_position() -> BoxedStrategy<String> {
     // the label of a move must not depend on the clocks: one position in eight sits at clock 99
     (notation_position_inner(), 0u8..8)
         .prop_map(|(fen, k)| {
